@@ -14,9 +14,9 @@ import (
 
 func init() {
 	register("C17", &propSpec{
-		level: "other",
+		level:       "other",
 		explanation: "Attribute and mode conversions decided from extracted tables and provenance: toFileMode and fromFileMode (permission mask, 7-way type switch, three special-bit ladders) equal the POSIX↔os oracle and are mutually inverse on every type constant, special bit and the permission mask (exhaustive over the extracted tables); toChmodPerm, isRegular and the sshfx constants and type letters agree; the attributes reported for a file come from the FileInfo's own Size/Mode/ModTime/owner (uid/gid override guarded by the type assertion only); both set-attribute handlers apply exactly SIZE→Truncate, PERMISSIONS→Chmod, UIDGID→Chown, ACMODTIME→Chtimes(atime, mtime) under their own flag; client setters pair flag and payload; the long name is built from the same FileInfo.",
-		run: runC17,
+		run:         runC17,
 		assumptions: []string{"what the host file system reports is out of scope"},
 	})
 }
@@ -325,6 +325,170 @@ func runC17(c *Ctx) {
 			for k, w := range want {
 				c.check(letters[k] == w, "R1", fmt.Sprintf("long-name letter of type %#x", k), "permissions.go", letters[k], fmt.Sprintf("type %#x is shown as %q in the long name, ls uses %q", k, letters[k], w))
 			}
+		}
+		// special bits and permission letters of the long name, on SSA
+		if fn := p.FuncIn(p.Sshfx, "(FileMode).String"); fn == nil {
+			c.missing("R1", "sshfx (FileMode).String")
+		} else {
+			idxOf := func(addr ssa.Value) (int64, bool) {
+				ia, ok := addr.(*ssa.IndexAddr)
+				if !ok {
+					return 0, false
+				}
+				return constInt(ia.Index)
+			}
+			// buf[i] = 'c' stores of a block (following plain jumps is not needed: the arms are single blocks)
+			storesIn := func(b *ssa.BasicBlock) map[int64]int64 {
+				out := map[int64]int64{}
+				for _, in := range b.Instrs {
+					if st, ok := in.(*ssa.Store); ok {
+						if i, ok := idxOf(st.Addr); ok {
+							if v, ok := constInt(st.Val); ok {
+								out[i] = v
+							}
+						}
+					}
+				}
+				return out
+			}
+			type spec struct {
+				pos          int64
+				lower, upper byte
+			}
+			want := map[int64]spec{0o4000: {3, 's', 'S'}, 0o2000: {6, 's', 'S'}, 0o1000: {9, 't', 'T'}}
+			seen := map[int64]bool{}
+			for _, b := range fn.Blocks {
+				iff, ok := b.Instrs[len(b.Instrs)-1].(*ssa.If)
+				if !ok {
+					continue
+				}
+				cmp, ok := iff.Cond.(*ssa.BinOp)
+				if !ok || cmp.Op != token.NEQ {
+					continue
+				}
+				and, ok := cmp.X.(*ssa.BinOp)
+				if !ok || and.Op != token.AND {
+					continue
+				}
+				k, ok := constInt(and.Y)
+				if !ok {
+					continue
+				}
+				w, isSpecial := want[k]
+				if !isSpecial {
+					continue
+				}
+				seen[k] = true
+				key := fmt.Sprintf("long-name special bit %#o", k)
+				body := b.Succs[0]
+				iff2, ok := body.Instrs[len(body.Instrs)-1].(*ssa.If)
+				if !ok {
+					c.und("R1", key, p.Pos(iff.Pos()), "no test of the execute letter under the special bit")
+					continue
+				}
+				cmp2, ok := iff2.Cond.(*ssa.BinOp)
+				tested, okT := int64(-1), false
+				var letter int64
+				if ok && cmp2.Op == token.EQL {
+					if ld, isLd := cmp2.X.(*ssa.UnOp); isLd && ld.Op == token.MUL {
+						tested, okT = idxOf(ld.X)
+					}
+					letter, _ = constInt(cmp2.Y)
+				}
+				if !okT || letter != 'x' {
+					c.und("R1", key, p.Pos(iff2.Pos()), "the test under the special bit is not buf[i] == 'x'")
+					continue
+				}
+				lo, up := storesIn(body.Succs[0]), storesIn(body.Succs[1])
+				good := tested == w.pos && len(lo) == 1 && len(up) == 1 && lo[w.pos] == int64(w.lower) && up[w.pos] == int64(w.upper)
+				c.check(good, "R1", key, p.Pos(iff2.Pos()), fmt.Sprintf("position %d: %q when executable, %q otherwise", w.pos, w.lower, w.upper),
+					fmt.Sprintf("special bit %#o: tests position %d, writes %v when it holds 'x' and %v otherwise; ls shows %q/%q at position %d according to the execute bit at that same position", k, tested, lo, up, w.lower, w.upper, w.pos))
+			}
+			for k := range want {
+				if !seen[k] {
+					c.bad("R1", fmt.Sprintf("long-name special bit %#o", k), p.Pos(fn.Pos()), "the long name no longer shows this bit")
+				}
+			}
+			// permission letters: bit (8-i) selects "rwxrwxrwx"[i] at position i+1
+			okPerm := false
+			why := "no permission loop found"
+			eachInstr(fn, func(in ssa.Instruction) {
+				sh, ok := in.(*ssa.BinOp)
+				if !ok || sh.Op != token.SHL {
+					return
+				}
+				if one, ok := constInt(sh.X); !ok || one != 1 {
+					return
+				}
+				amt := affineOf(sh.Y)
+				if len(amt.coef) != 1 || amt.c != 8 {
+					why = "shift amount is " + amt.String() + ", expected 8 - i"
+					return
+				}
+				var ik string
+				for k2, v := range amt.coef {
+					if v != -1 {
+						why = "shift amount is " + amt.String() + ", expected 8 - i"
+						return
+					}
+					ik = k2
+				}
+				// the stores controlled by the test of this bit
+				var iff *ssa.If
+				for _, r := range *sh.Referrers() {
+					if and, ok := r.(*ssa.BinOp); ok && and.Op == token.AND {
+						for _, r2 := range *and.Referrers() {
+							if cmp, ok := r2.(*ssa.BinOp); ok && cmp.Op == token.NEQ {
+								for _, r3 := range *cmp.Referrers() {
+									if x, ok := r3.(*ssa.If); ok {
+										iff = x
+									}
+								}
+							}
+						}
+					}
+				}
+				if iff == nil {
+					why = "the permission bit is not tested with != 0"
+					return
+				}
+				set, clr := iff.Block().Succs[0], iff.Block().Succs[1]
+				check := func(b *ssa.BasicBlock, dash bool) bool {
+					for _, x := range b.Instrs {
+						st, ok := x.(*ssa.Store)
+						if !ok {
+							continue
+						}
+						ia, ok := st.Addr.(*ssa.IndexAddr)
+						if !ok {
+							continue
+						}
+						it := affineOf(ia.Index)
+						if len(it.coef) != 1 || it.coef[ik] != 1 || it.c != 1 {
+							why = "letter stored at position " + it.String() + ", expected i + 1"
+							return false
+						}
+						if dash {
+							v, ok := constInt(st.Val)
+							return ok && v == '-'
+						}
+						return true
+					}
+					return false
+				}
+				if check(set, false) && check(clr, true) {
+					okPerm = true
+				}
+			})
+			rwx := false
+			eachInstr(fn, func(in ssa.Instruction) {
+				if r, ok := in.(*ssa.Range); ok {
+					if s, ok := constString(r.X); ok && s == "rwxrwxrwx" {
+						rwx = true
+					}
+				}
+			})
+			c.check(okPerm && rwx, "R1", "long-name permission letters", p.Pos(fn.Pos()), "bit 8-i shows \"rwxrwxrwx\"[i] at position i+1, '-' when clear", "the permission letters of the long name do not follow the mode bits: "+why)
 		}
 		c.floor("R1", 45)
 	}
